@@ -134,6 +134,10 @@ impl Tree {
             (unique.join("l1/OUTSIDE-l1.m"), "U/l1/OUTSIDE-l1.m"),
             (l2.join("a.txt"), "U/l1/l2/a.txt"),
             (l2.join("a.txt.gz"), "U/l1/l2/a.txt.gz"),
+            // siblings of the root named like a pre-compressed variant of the root itself
+            (l2.join("root.gz"), "U/l1/l2/root.gz"),
+            (l2.join("root.br"), "U/l1/l2/root.br"),
+            (l2.join("root.zst"), "U/l1/l2/root.zst"),
             (l2.join("canary.txt"), "U/l1/l2/canary.txt"),
             (l2.join(".hidden"), "U/l1/l2/.hidden"),
             (l2.join("é"), "U/l1/l2/é"),
